@@ -39,7 +39,9 @@ RULE = ('surface cases = (record of 1..400 samples (lengths 1,2,3 and around eve
         '(all-zero / all-negative / all-positive / mixed, |shift| up to 2n, 120, 250; containers int64..int8/uint8/uint16/'
         'list/tuple/views/read-only) on values float64 (also 1e-12, 1e12)/int64/uint8/uint16/int8/int16/int32/float32 using '
         'the dtype range, as ndarray/list/tuple/mixed list/views/read-only, positional and keyword; joins with non-negative '
-        'shifts. distinct = digest of all inputs and forms; non-trivial = record with a non-zero sample and at least 2 '
+        'shifts, and the object-level join_sig_w_time_shift on Signal/AccSignal with times s*dt (dyadic/nice/reciprocal/'
+        '1e-9..1e3 dt), s*dt+0.25dt, s*dt+0.999dt, decimal literals and one ulp below (s+1)*dt, jtype add/sub/omitted, '
+        'positional/keyword. distinct = digest of all inputs and forms; non-trivial = record with a non-zero sample and at least 2 '
         'samples (surface) / any non-zero value (shift).')
 ASSUMPTIONS = ['finite real records, dt > 0, travel times >= 0, stt >= 0',
                'reductions are both scalars or both ndarrays with one entry per travel time (list-typed, 0-d and mixed '
@@ -48,8 +50,11 @@ ASSUMPTIONS = ['finite real records, dt > 0, travel times >= 0, stt >= 0',
                'on an INEXACT knife edge (2*tau/dt, tau/dt or stt/dt within 16 ulps of an integer without being one in '
                'exact arithmetic on the given floats) either resolution of the first/last record sample and of the '
                'floor is accepted; exact quotients are decided strictly',
-               'join_values_w_shifts is judged for non-negative shifts only; join_sig_w_time_shift (times, int(t/dt)) is '
-               'observed, its inner join is judged on the integer shifts it receives',
+               'join_values_w_shifts is judged for non-negative shifts only; join_sig_w_time_shift (Signal/AccSignal, ndarray '
+               'times >= 0) is judged against the join by int(t/dt) samples: the floor of the exact quotient of the given '
+               'floats, two-sided (k-1 or k) only when that quotient lies within 16 ulps below an integer k; and, for all '
+               'times, against join_values_w_shifts on int(t/dt) as evaluated by the library; list/tuple/scalar time_shifts '
+               'are rejected by the library (observations)',
                'tolerances: energy 1e-9*max|E| + 1e-11*V^2, cumulative 1e-9*(max + V^2), motions 1e-9*(|up|+|down|)*max|x| '
                'with V = dt*(|up|+|down|)*sum|x|; shifted arrays exact',
                'values of shifted/joined arrays are judged numerically in exact float64 arithmetic on the input values; '
@@ -586,8 +591,83 @@ def _post_join(args, kwargs, result, pre):
                                                                tol.describe(got, ref, scale=np.array(mags), rtol=1e-12)))
 
 
+def _pre_join_sig(args, kwargs):
+    p = _parse(args, kwargs, ('sig', 'time_shifts', 'jtype'), {'jtype': 'add'})
+    try:
+        return {'values': np.array(p['sig'].values), 'dt': p['sig'].dt, 'ts': _copy_arg(p['time_shifts'])}
+    except Exception:
+        return None
+
+
+def _wit_join_sig(p, pre, **extra):
+    d = {'fn': 'join_sig_w_time_shift', 'values': np.asarray(pre['values']), 'dt': float(pre['dt']),
+         'time_shifts': np.asarray(pre['ts']), 'ts_container': _container_name(p['time_shifts']), 'jtype': p['jtype'],
+         'sig_class': type(p['sig']).__name__}
+    d.update(extra)
+    return d
+
+
 def _post_join_sig(args, kwargs, result, pre):
-    CTX.observe('join_sig_w_time_shift: executed (times converted by int(t/dt); observed, not judged)')
+    """Object-level entry point of the join: times t_k are converted with int(t_k/dt). Judged (a) against the definition for
+    the admissible integer conversions of every t_k, (b) against join_values_w_shifts on int(t/dt) as the library evaluates
+    it (relation between the two entry points, for ALL time shifts)."""
+    import eqsig
+    ctx = CTX
+    p = _parse(args, kwargs, ('sig', 'time_shifts', 'jtype'), {'jtype': 'add'})
+    if pre is None:
+        ctx.observe('join_sig_w_time_shift: arguments could not be snapshotted (not judged)')
+        return
+    sig = p['sig']
+    okp = (isinstance(sig.values, np.ndarray) and _same_bits(sig.values, pre['values']) and sig.dt == pre['dt']
+           and _arg_unchanged(p['time_shifts'], pre['ts']))
+    ctx.check(okp, 'purity.join_sig-arguments-unchanged', lambda: _wit_join_sig(p, pre, purity_only=True),
+              'join_sig_w_time_shift changed the signal values / dt or its time_shifts argument')
+    try:
+        ts = np.asarray(pre['ts'], dtype=float)
+        vals = np.asarray(pre['values'], dtype=float)
+        dt = float(pre['dt'])
+    except Exception:
+        ctx.observe('join_sig_w_time_shift: out of domain (non-numeric arguments)')
+        return
+    if (ts.ndim != 1 or ts.size < 1 or vals.ndim != 1 or vals.size < 1 or not np.all(np.isfinite(ts)) or np.any(ts < 0)
+            or not np.all(np.isfinite(vals)) or not (dt > 0 and np.isfinite(dt)) or p['jtype'] not in ('add', 'sub')):
+        ctx.observe('join_sig_w_time_shift: out of domain (negative/non-finite times, jtype not add/sub, ...)')
+        return
+    got = np.asarray(result)
+    # (a) definition: zero-padded original +/- copies shifted by int(t_k/dt) samples
+    opts = [O.trunc_options(float(t), dt) for t in ts.tolist()]
+    n_alt = 1
+    for o in opts:
+        n_alt *= len(o)
+    if n_alt > 1:
+        ctx.observe('join_sig_w_time_shift: a quotient t/dt a few ulps below an integer (two admissible conversions)')
+    okk, msg = False, ''
+    if n_alt <= 64:
+        for combo in itertools.product(*opts):
+            rows, mags = O.join(vals.tolist(), list(combo), p['jtype'])
+            ref = np.array(rows, dtype=float)
+            if tol.close(got, ref, scale=np.array(mags, dtype=float), rtol=1e-12):
+                okk = True
+                break
+            msg = 'shifts %s: %s' % (list(combo), tol.describe(got, ref, scale=np.array(mags, dtype=float), rtol=1e-12))
+        ctx.check(okk, 'join_sig==padded+-shifted(int(t/dt))', lambda: _wit_join_sig(p, pre, got=got),
+                  'join_sig_w_time_shift(%s n=%d, dt=%r, times=%s, %r): %s'
+                  % (type(sig).__name__, vals.size, dt, ts.tolist()[:8], p['jtype'], msg))
+    else:
+        ctx.observe('join_sig_w_time_shift: too many ambiguous conversions (definition clause skipped)')
+    # (b) relation between the two entry points
+    try:
+        with attach.paused():
+            sh = np.array(pre['ts'] / pre['dt'], dtype=int)
+            other = eqsig.fns.time_shift.join_values_w_shifts(np.array(pre['values']), sh, jtype=p['jtype'])
+    except Exception as e:
+        ctx.observe('join_sig_w_time_shift: join_values_w_shifts on int(t/dt) raised %s (relation not evaluated)' % type(e).__name__)
+        return
+    other = np.asarray(other)
+    ctx.check(got.shape == other.shape and bool(np.array_equal(got, other)), 'join_sig==join_values(int(t/dt))',
+              lambda: _wit_join_sig(p, pre, got=got),
+              'join_sig_w_time_shift(..., %r) differs from join_values_w_shifts(values, int(t/dt)=%s, jtype=%r)'
+              % (p['jtype'], sh.tolist()[:8], p['jtype']))
 
 
 def install(ctx):
@@ -604,7 +684,7 @@ def install(ctx):
     attach.wrap(sf, 'trim_to_length', _post_trim, pre=_pre_trim)
     attach.wrap(ts, 'put_array_in_2d_array', _post_put, pre=_pre_shift)
     attach.wrap(ts, 'join_values_w_shifts', _post_join, pre=_pre_shift)
-    attach.wrap(ts, 'join_sig_w_time_shift', _post_join_sig)
+    attach.wrap(ts, 'join_sig_w_time_shift', _post_join_sig, pre=_pre_join_sig)
 
 
 # ---------------------------------------------------------------------------------------------------- driver helpers
@@ -1351,6 +1431,68 @@ def _join(eqsig, ctx, values, shifts, jtype, style='kw'):
                                                               jtype='add' if jtype == 'omit' else jtype, style=style), e)
 
 
+def _join_sig(eqsig, ctx, vals, dt, ts, jtype, style='kw', cls='Signal', expect_reject=False):
+    """One monitored call of the object-level join. jtype 'omit' = default. Forms the library rejects are observations."""
+    try:
+        sig = getattr(eqsig, cls)(vals, dt)
+        if style == 'pos':
+            eqsig.join_sig_w_time_shift(sig, ts, 'add' if jtype == 'omit' else jtype)
+        elif jtype == 'omit':
+            eqsig.join_sig_w_time_shift(sig, ts)
+        elif style == 'kw-all':
+            eqsig.join_sig_w_time_shift(sig=sig, time_shifts=ts, jtype=jtype)
+        else:
+            eqsig.join_sig_w_time_shift(sig, ts, jtype=jtype)
+        if expect_reject:
+            ctx.observe('join_sig_w_time_shift: accepted time_shifts of type %s' % type(ts).__name__)
+    except Exception as e:
+        if expect_reject:
+            ctx.observe('join_sig_w_time_shift: time_shifts of type %s rejected with %s (not judged)'
+                        % (type(ts).__name__, type(e).__name__))
+        else:
+            ctx.exception('join_sig==padded+-shifted(int(t/dt))',
+                          {'fn': 'join_sig_w_time_shift', 'values': np.asarray(vals), 'dt': dt, 'time_shifts': np.asarray(ts),
+                           'ts_container': _container_name(ts), 'jtype': 'add' if jtype == 'omit' else jtype,
+                           'sig_class': cls, 'style': style, 'omit': jtype == 'omit'}, e)
+
+
+def drive_join_sig(eqsig, ctx, rng, vals, sh, i):
+    """Times built from the non-negative sample shifts sh: exact products (dyadic dt), float products s*dt (decided when
+    s*dt/dt == s, two-sided a few ulps below), a quarter/most of a step later, just below the next multiple."""
+    dkind = i % 4
+    if dkind == 0:
+        dt = float(DYADIC_DT[int(rng.integers(len(DYADIC_DT)))])
+    elif dkind == 1:
+        dt = gen.dt(rng, 'nice')
+    elif dkind == 2:
+        dt = gen.dt(rng, 'recip')
+    else:
+        dt = float(10.0 ** rng.uniform(-9, 3))
+    base = sh.astype(float) * dt
+    tkind = (i // 4) % 5
+    if tkind == 0:
+        ts = base
+    elif tkind == 1:
+        ts = base + 0.25 * dt
+    elif tkind == 2:
+        ts = base + 0.999 * dt
+    elif tkind == 3:
+        ts = np.array([float('%.12g' % t) for t in base])          # decimal literals: 0.29/0.01 -> 28.999999999999996
+    else:
+        ts = np.nextafter(base + dt, 0.0)                          # one ulp below the next multiple
+    ctx.observe('join_sig time-shift kind %s' % ['s*dt', 's*dt+0.25dt', 's*dt+0.999dt', 'decimal literal', 'ulp below (s+1)*dt'][tkind])
+    form = ['ndarray', 'view', 'readonly', 'rview', 'ndarray'][i % 5]
+    ts_arg = _as_form(ts, form)
+    if dt in (1.0, 2.0, 8.0, 1024.0) and tkind == 0 and i % 3 == 0:
+        ts_arg = ts.astype([np.int64, np.int32, np.uint16][i % 3 if np.max(ts) < 60000 else 0])     # integral times
+    cls = 'AccSignal' if i % 2 else 'Signal'
+    for jt, style in (('sub', 'kw'), ('sub', 'pos'), ('add', 'kw'), ('omit', 'kw'), ('add', 'pos'), ('sub', 'kw-all'))[i % 2::2]:
+        _join_sig(eqsig, ctx, vals, dt, ts_arg, jt, style, cls)
+    if i % 6 == 0:      # forms the library may reject: list / tuple / scalar-like
+        rej = [ts.tolist(), tuple(ts.tolist()), float(ts[0]), np.float64(ts[0])][(i // 6) % 4]
+        _join_sig(eqsig, ctx, vals, dt, rej, 'sub', 'kw', cls, expect_reject=True)
+
+
 SHIFT_DTYPES = ['int64', 'int64', 'int32', 'int16', 'int8', 'uint8', 'uint16']
 
 
@@ -1506,7 +1648,10 @@ def run_shard(ctx):
                 if min(vec) >= 0:
                     for jt in ('add', 'sub'):
                         _join(eqsig, ctx, vals, sh, 'omit' if (jt == 'add' and idx % 2) else jt, style='pos' if idx % 3 == 1 and jt == 'sub' else 'kw')
-                        n_enum += 1
+                        _join_sig(eqsig, ctx, vals, 0.25, np.array(vec, dtype=float) * 0.25 + (0.125 if idx % 2 else 0.0),
+                                  'omit' if (jt == 'add' and idx % 2) else jt, style=['kw', 'pos', 'kw-all'][idx % 3],
+                                  cls='AccSignal' if idx % 2 else 'Signal')
+                        n_enum += 2
     ctx.cases_enumerated(n_enum, n_enum, cls='shift:exhaustive{-3..3}')
     ctx.exhaustive['shift_vectors_x_n_x_clip'] = n_enum
     # -- shifts: random -----------------------------------------------------------------------------------------------
@@ -1527,13 +1672,8 @@ def run_shard(ctx):
             _join(eqsig, ctx, v_arg, s_arg, 'sub')
         elif i % 4 == 0:
             _join(eqsig, ctx, vals, sh, 'add' if i % 2 else 'sub')
-        if i % 10 == 0 and sh.min() >= 0:
-            # times -> shifts: observed only; the inner join is monitored on the integer shifts it receives
-            dt = gen.dt(rng, 'nice')
-            try:
-                eqsig.join_sig_w_time_shift(eqsig.Signal(vals, dt), sh * dt + 0.25 * dt, jtype='add' if i % 20 else 'sub')
-            except Exception as e:
-                ctx.observe('join_sig_w_time_shift raised %s (not judged)' % type(e).__name__)
+        if sh.min() >= 0:
+            drive_join_sig(eqsig, ctx, rng, v_arg, sh, i)
     ctx.note('monitored_calls', dict(attach.CALLS))
 
 
@@ -1623,6 +1763,12 @@ def replay(w):
     elif fn == 'put_array_in_2d_array':
         vals, sh = _shift_args(w)
         _put(eqsig, ctx, vals, sh, w.get('clip', 'none'), style=w.get('style', 'kw'))
+    elif fn == 'join_sig_w_time_shift':
+        ts = np.asarray(w['time_shifts'])
+        tc = w.get('ts_container', 'ndarray')
+        ts = ts.tolist() if tc == 'list' else (tuple(ts.tolist()) if tc == 'tuple' else _as_form(ts, tc))
+        _join_sig(eqsig, ctx, np.asarray(w['values']), w['dt'], ts, 'omit' if w.get('omit') else w.get('jtype', 'add'),
+                  w.get('style', 'kw'), w.get('sig_class', 'Signal'))
     elif fn == 'join_values_w_shifts':
         vals, sh = _shift_args(w)
         _join(eqsig, ctx, vals, sh, w.get('jtype', 'add'), style=w.get('style', 'kw'))
